@@ -250,9 +250,6 @@ def cmp_chain(a, b, path="/"):
     here = path + b["name"]
     if a["name"] != b["name"] or a["prefix"] != b["prefix"]:
         return ("name", f"{here}: name/prefix differ")
-    if a["attrs"] != b["attrs"] or a["extras"] != b["extras"]:
-        if [[k, attr_norm(v)] for k, v in a["attrs"] + a["extras"]] == [[k, attr_norm(v)] for k, v in b["attrs"] + b["extras"]]:
-            return ("attr-value-whitespace", f"{here}: attribute values {b['attrs'] + b['extras']!r} came back as {a['attrs'] + a['extras']!r}")
     if a["attrs"] != b["attrs"]:
         return ("attributes", f"{here}: attributes {a['attrs']!r} != {b['attrs']!r}")
     if a["extras"] != b["extras"]:
@@ -274,12 +271,12 @@ def cmp_chain(a, b, path="/"):
     return None
 
 
+def alias_free_cr(doc):
+    return True
+
+
 def has_default_ns(raw):
     return any(k == "xmlns" for k, _ in raw["attrs"]) or any(has_default_ns(k) for k in raw["kids"])
-
-
-def attr_norm(v):
-    return v.replace("\t", " ").replace("\n", " ").replace("\r", " ")
 
 
 def alias_class(raw, scope):
@@ -301,7 +298,7 @@ DIRECTED = [
     '<r xmlns:a="u" xmlns:b="u" a:x="1" xml:lang="en"><!-- c --><c b:y="2"/><!-- d --></r>',
     '<eml:eml xmlns:eml="https://eml.ecoinformatics.org/eml-2.2.0" xmlns:xsi="http://www.w3.org/2001/XMLSchema-instance" '
     'xsi:schemaLocation="a b" packageId="x.1.1"><dataset><title> A  title\n </title><para>  keep   this </para>\n  </dataset></eml:eml>',
-    '<a>\xa0</a>', '<a>\t \xa0</a>', '<a>x<![CDATA[ <y> ]]>z</a>', '<a>&#32;&#9;</a>', '<a><![CDATA[]]></a>', '<a><b> </b>  <c>\n</c>\t</a>',
+    '<a k="&#10;x&#9;&#13;" xml:lang="&#10;"/>', '<a>\xa0</a>', '<a>\t \xa0</a>', '<a>x<![CDATA[ <y> ]]>z</a>', '<a>&#32;&#9;</a>', '<a><![CDATA[]]></a>', '<a><b> </b>  <c>\n</c>\t</a>',
 ]
 FLAGS = [(True, False), (True, True), (False, False), (False, True)]
 
@@ -329,6 +326,7 @@ def run(ctx):
         docs.append((gen_doc(ctx.rng, opts), origin))
 
     cases, wants, meta = [], [], []
+    mcases, mmeta = [], []
     pcases, pw_raw, pw_lx, pmeta = [], [], [], []
     for doc, origin in docs:
         lx, err = X.lxml_parse(doc)
@@ -365,6 +363,10 @@ def run(ctx):
             if not in_class:
                 NL.reset_store()
                 continue
+            if not alias_free_cr(doc):
+                pass
+            mcases.append("(" + cases[-1][1:-1] + ", " + want + ")")
+            mmeta.append(meta[-1])
             # (S) the statement
             rep = {"kind": "impl-vs-statement", "document": doc, "clean": clean, "collapse": collapse, "literals": list(lits)}
             if sn is None:
@@ -390,10 +392,6 @@ def run(ctx):
             if r:
                 field, what = r
                 key = "C08:stable:" + field
-                if field == "attr-value-whitespace":
-                    key = "C08:stable:attr-value-tab-newline"
-                    what += (" (a tab/newline/CR in an attribute value, written in the source as a character reference, is exported "
-                             "literally and normalised to a space by the second parse)")
                 if field == "extras-alias" and alias_class(raw, {}):
                     key = "C08:stable:alias-prefix-redeclared"
                     what += (" (same expanded name under another prefix: two prefixes are bound to one URI and the order of the in-scope "
@@ -411,6 +409,14 @@ def run(ctx):
         ctx.fail("corr:process_element", "model process_element and from_xml disagree",
                  {"kind": "broken-correspondence", "theorem": "C08 (model/implementation correspondence)", "case": meta[i],
                   "model": RL.coq_show(ctx, "imp", "run_import", cases[i], header=X.HEADER)}, concrete=False)
+    # the declarative spec (Spec/Mirror.v: infoset_okb, mirror) evaluated in Coq on the in-class documents
+    bad, errors = RL.coq_compare(ctx, "mir", "run_mirror", mcases, ["true"] * len(mcases), shard=shard, header=X.HEADER, eqb="Bool.eqb")
+    ctx.extra["spec_mirror_validated_against_impl"] = len(mcases) - len(bad)
+    for name, outp in errors:
+        ctx.fail("corr:coq-error", f"case file {name} did not evaluate", {"kind": "broken-correspondence", "file": name, "output": outp}, concrete=False)
+    for i in bad[:3]:
+        ctx.fail("spec:mirror", "Spec/Mirror.v (infoset_okb / mirror) does not describe from_xml's tree on a document of the class",
+                 {"kind": "broken-correspondence", "theorem": "C08_mirror (statement side)", "case": mmeta[i]}, concrete=False)
     for label, fn, pw, eqb in (("xpraw", "xparse", pw_raw, "(opt_eqb xnode_eqb)"), ("xplx", "run_parse", pw_lx, "(opt_eqb xel_eqb)")):
         bad, errors = RL.coq_compare(ctx, label, fn, pcases, pw, shard=shard, header=X.HEADER, eqb=eqb)
         ctx.extra["xparse_validated_" + label] = len(pcases) - len(bad)
